@@ -225,7 +225,7 @@ func TestReplay_Q(t *testing.T) {
 		}
 	}
 	replayC05Big()
-	for _, rf := range verifkit.ReplayFiles("TestProp_C01_StoreCrash") {
+	for _, rf := range append(verifkit.ReplayFiles("TestProp_C01_StoreCrash"), verifkit.ReplayFiles("TestProp_C15_BatchCrash")...) {
 		var c C01Case
 		if err := json.Unmarshal(rf.Case, &c); err != nil {
 			fmt.Printf("REPLAY-ERROR file=%s err=%v\n", rf.Path, err)
